@@ -73,3 +73,9 @@ type Offer struct {
 	Steps Tariffs
 	ByOp  map[lib.Op]lib.Rate
 }
+
+// Tree is recursive through a fixed array of pointers: the pointers bound it.
+type Tree struct {
+	Label string
+	Kids  [2]*Tree
+}
